@@ -5,6 +5,7 @@ import (
 	"fmt"
 	"math/rand"
 	"runtime"
+	"strings"
 	"sync"
 
 	"verif/harness/vk"
@@ -498,11 +499,88 @@ func Gen(r *vk.Run, n int) error {
 		}
 		record(r, res, origin[i], maxKnown)
 	}
+	return genDDL(r, n/3, workers)
+}
+
+// the DDL stream: hand-written histories, then nd random ones; checked by the oracle of ddl.go only
+func genDDL(r *vk.Run, nd int, workers int) error {
+	var progs [][]DEv
+	var origin []string
+	for _, p := range seedDDLPrograms() {
+		progs = append(progs, p)
+		origin = append(origin, "ddl-seed")
+	}
+	for i := 0; i < nd; i++ {
+		progs = append(progs, genDDLProgram(r.Rng))
+		origin = append(origin, "ddl")
+	}
+	results := make([]ddlResult, len(progs))
+	var wg sync.WaitGroup
+	ch := make(chan int)
+	for w := 0; w < workers; w++ {
+		wg.Add(1)
+		go func() {
+			defer wg.Done()
+			for i := range ch {
+				results[i] = runDDLProgram(progs[i])
+			}
+		}()
+	}
+	for i := range progs {
+		ch <- i
+	}
+	close(ch)
+	wg.Wait()
+	reported := 0
+	for i, res := range results {
+		if res.err != nil {
+			return fmt.Errorf("ddl program %d (%s): %w", i, dProgString(progs[i]), res.err)
+		}
+		recordDDL(r, res, origin[i], i, &reported)
+	}
 	return nil
+}
+
+var knownDDLSeen = map[string]int{}
+
+func recordDDL(r *vk.Run, res ddlResult, origin string, k int, reported *int) {
+	for _, f := range res.findings {
+		if strings.HasPrefix(f, "cause=unknown") {
+			if *reported < 8 {
+				r.Finding(f)
+			}
+			*reported++
+		} else if k := f[:strings.Index(f, " ")]; knownDDLSeen[k] < 2 {
+			knownDDLSeen[k]++
+			r.Finding(f)
+		}
+	}
+	js := map[string]any{"origin": origin, "ddl_events": res.evs, "program": dProgString(res.evs), "engine": res.log,
+		"spec_check": map[bool]string{true: "violation", false: "ok"}[len(res.findings) > 0], "spec_violation": len(res.findings) > 0,
+		"findings": res.findings}
+	nontrivial := res.features["ddl-in-tx"] || res.features["ddl-autocommit"]
+	r.Case(fmt.Sprintf("(CDdl %d)", k), js, origin+"/"+res.bucket(), nontrivial)
 }
 
 // Replay re-runs the program stored in a replay file.
 func Replay(r *vk.Run, c map[string]any) error {
+	if evs, ok := c["ddl_events"]; ok {
+		b, err := json.Marshal(evs)
+		if err != nil {
+			return err
+		}
+		var p []DEv
+		if err := json.Unmarshal(b, &p); err != nil {
+			return err
+		}
+		res := runDDLProgram(p)
+		if res.err != nil {
+			return res.err
+		}
+		n := 0
+		recordDDL(r, res, "ddl-replay", 0, &n)
+		return nil
+	}
 	b, err := json.Marshal(c["steps"])
 	if err != nil {
 		return err
